@@ -347,6 +347,7 @@ type cliTr struct {
 	inc    *Inc
 	np     transport.NegotiationParams
 	closed int32
+	disc   int32 // the client has handed its Disconnect to the transport
 }
 
 func (t *cliTr) Read() ([]byte, error) { return t.inc.cliRaw.Read() }
@@ -385,6 +386,13 @@ func (t *cliTr) Write(bs []byte) error {
 		b.rec.Log("Fault", "c", t.inc.c, "do", "cutBefore", "on", kind)
 		t.inc.cut("script")
 		return transport.ErrAlreadyClosed
+	}
+	// the order in which the library hands its messages to the transport: nothing but keep-alive may follow the Disconnect (on a real
+	// socket such a message would still reach the peer; the synchronous pipe refuses it once the transport has been closed)
+	if kind == "Disconnect" {
+		atomic.StoreInt32(&t.disc, 1)
+	} else if atomic.LoadInt32(&t.disc) == 1 && kind != "Ping" && kind != "Pong" {
+		b.rec.Log("CliWriteAfterDisconnect", "c", t.inc.c, "kind", kind)
 	}
 	err := t.inc.cliRaw.Write(bs)
 	if err == nil {
